@@ -41,7 +41,7 @@
 #include "corpus.h"
 
 static corpus C;
-static mc_ctr *c_nsmp,*c_beyond32,*c_states,*c_trans,*c_eval,*c_dn,*c_samples,*c_clipchg,*c_sat16,*c_over24,*c_errs,*c_nonfinite;
+static mc_ctr *c_nsmp2,*c_conceal,*c_dnconceal,*c_fork,*c_chains,*c_nsmp,*c_beyond32,*c_states,*c_trans,*c_eval,*c_dn,*c_samples,*c_clipchg,*c_sat16,*c_over24,*c_errs,*c_nonfinite;
 static mc_ctr *c_pclean,*c_pdirty,*c_psat,*c_pmaxdev,*c_pmaxratio,*c_pcmp,*c_pwrap;
 static mc_set *S_obs,*S_cls;
 static const int FSD[5]={8000,12000,16000,24000,48000};
@@ -97,59 +97,131 @@ static int stream_seq(int sid,pref *seq,int cap){
    return n;
 }
 /* compares one decoded triple; returns 0 if a failure was recorded */
-static int cmp_triple(const char *api,const char *ctx,int pi,const pref *p,int r16,int r24,int rf,opus_uint32 g16,opus_uint32 g24,opus_uint32 gf,
-                      const opus_int16 *o16,const opus_int32 *o24,const float *of,float *sc,int nch,float *mem){
-   int i,n; char sg[96]; long chg=0,sat=0,ov=0; int nz=0,b32=0;
-   MC_INC(c_eval);
-   if(r16!=rf||r24!=rf){ snprintf(sg,sizeof sg,"%s_sample_count_differs",api); mc_fail(sg,"%s packet %d (kind %d idx %d len %d %s..): decode=%d decode24=%d decode_float=%d",ctx,pi,p->kind,p->idx,p->len,mc_hex(p->d,p->len<16?p->len:16),r16,r24,rf); return 0; }
-   if(rf<0){ MC_INC(c_errs); return 1; }
-   if(g16!=gf||g24!=gf){ snprintf(sg,sizeof sg,"%s_final_range_differs",api); mc_fail(sg,"%s packet %d (kind %d len %d): final range 16-bit %08x, 24-bit %08x, float %08x",ctx,pi,p->kind,p->len,g16,g24,gf); return 0; }
+/* ---- twin triple (16-bit / 24-bit / float entry points of one decoder kind) and the soft-clip twin memory.
+ * The statement does not say what happens to the soft clipper's memory across a concealment call, so after a loss the harness
+ * keeps BOTH readings alive (memory carried unchanged / memory cleared) and drops a reading as soon as a received packet's
+ * 16-bit output contradicts it; the check fails when no reading is left.  With a zero memory at the loss both coincide. */
+typedef struct { void *d[3]; int ms,nch,fsd; float cand[2][16]; int ncand; const char *api; char ctx[300]; } T3;
+static int t3_call(T3 *t,int k,const unsigned char *d,int len,void *out,int fs,int fec){
+   if(!t->ms) return k==0?opus_decode(t->d[0],d,len,out,fs,fec):k==1?opus_decode24(t->d[1],d,len,out,fs,fec):opus_decode_float(t->d[2],d,len,out,fs,fec);
+   return k==0?opus_multistream_decode(t->d[0],d,len,out,fs,fec):k==1?opus_multistream_decode24(t->d[1],d,len,out,fs,fec):opus_multistream_decode_float(t->d[2],d,len,out,fs,fec);
+}
+static opus_uint32 t3_rng(T3 *t,int k){ opus_uint32 r=0; if(t->ms) opus_multistream_decoder_ctl(t->d[k],OPUS_GET_FINAL_RANGE(&r)); else opus_decoder_ctl(t->d[k],OPUS_GET_FINAL_RANGE(&r)); return r; }
+static void t3_destroy(T3 *t){ int k; for(k=0;k<3;k++) if(t->d[k]){ if(t->ms) opus_multistream_decoder_destroy(t->d[k]); else opus_decoder_destroy(t->d[k]); } }
+static void t3_loss(T3 *t){ int c,nzm=0;      /* a concealment call happened: fork the memory reading if it matters */
+   for(c=0;c<t->nch;c++) if(t->cand[0][c]!=0) nzm=1;
+   if(t->ncand==2) memset(t->cand[1],0,sizeof t->cand[1]);
+   else if(nzm){ memset(t->cand[1],0,sizeof t->cand[1]); t->ncand=2; MC_INC(c_fork); }
+}
+/* first sample where pcm16 is not sat16(round(2^15*sc)); -1 if none */
+static int first16(const opus_int16 *o16,const float *sc,int n){ int i; for(i=0;i<n;i++){ double yc=clamp16((double)sc[i]*32768.0); if(fabs((double)o16[i]-yc)>0.5) return i; } return -1; }
+
+/* one call issued identically to the three twins and compared.  conceal=0: received packet (full relations);
+ * conceal=1: PLC / FEC call (counts, final ranges, 24-bit relation; 16-bit = plain conversion or soft-clipped reading). */
+static int t3_step(T3 *t,const char *what,int pi,const pref *p,const unsigned char *data,int len,int frame_size,int fec,int conceal){
+   int nch=t->nch,r16,r24,rf,i,n,ok=1; char sg[112]; long chg=0,sat=0,ov=0; int nz=0,b32=0; opus_uint32 g16,g24,gf; const char *api=t->api;
+   opus_int16 *o16=malloc(sizeof(opus_int16)*frame_size*nch); opus_int32 *o24=malloc(sizeof(opus_int32)*frame_size*nch); float *of=malloc(sizeof(float)*frame_size*nch),*sc=malloc(sizeof(float)*frame_size*nch);
+   if(data) mc_case_bytes(t->ms?"ms_decode_triplet":"decode_triplet",data,len<64?len:64,len,frame_size,fec*2+conceal); else mc_case(t->ms?"ms_plc_triplet":"plc_triplet","%s %s frame_size %d",t->ctx,what,frame_size);
+   r16=t3_call(t,0,data,len,o16,frame_size,fec); r24=t3_call(t,1,data,len,o24,frame_size,fec); rf=t3_call(t,2,data,len,of,frame_size,fec);
+   g16=t3_rng(t,0); g24=t3_rng(t,1); gf=t3_rng(t,2);
+   MC_ADD(c_trans,3); MC_INC(c_eval); if(conceal) MC_INC(c_conceal);
+#define WHERE "%s %s (packet %d: kind %d idx %d len %d %s.., frame_size %d, decode_fec %d)"
+#define WARGS t->ctx,what,pi,p->kind,p->idx,p->len,mc_hex(p->d,p->len<16?p->len:16),frame_size,fec
+   if(r16!=rf||r24!=rf){ snprintf(sg,sizeof sg,"%s%s_sample_count_differs",api,conceal?"_concealment":""); mc_fail(sg,WHERE ": 16-bit entry point returned %d, 24-bit %d, float %d",WARGS,r16,r24,rf); ok=0; goto done; }
+   if(rf<0){ MC_INC(c_errs); goto done; }
+   if(g16!=gf||g24!=gf){ snprintf(sg,sizeof sg,"%s%s_final_range_differs",api,conceal?"_concealment":""); mc_fail(sg,WHERE ": final range 16-bit %08x, 24-bit %08x, float %08x",WARGS,g16,g24,gf); ok=0; goto done; }
    n=rf*nch;
-   memcpy(sc,of,sizeof(float)*n);
-   opus_pcm_soft_clip(sc,rf,nch,mem);
    for(i=0;i<n;i++){
-      double f=of[i],x24,y,yc;
+      double f=of[i],x24;
       if(!(f==f)||f>1e30||f<-1e30){ MC_INC(c_nonfinite); continue; }
       if(f!=0) nz=1;
       x24=f*8388608.0;
       if(x24>2147483647.0||x24<-2147483648.0){   /* |f| >= 256: 2^23*f is not an int32; the only faithful value is the nearest one (saturation) */
          /* accepted: the limit itself, or (positive side) the largest float below 2^31, which is what a clamp done in float yields */
          double want=x24>0?2147483647.0:-2147483648.0; int okv=x24>0?(o24[i]>=2147483520):(o24[i]==(-2147483647-1)); MC_INC(c_beyond32);
-         if(!okv && !b32++){ snprintf(sg,sizeof sg,"%s24_float_beyond_int32_range_not_saturated",api);   /* reported once per packet; the other clauses stay checked */
-            mc_fail(sg,"%s packet %d (kind %d len %d %s..) sample %d (frame pos %d ch %d): float %.9g -> 2^23*f = %.1f does not fit 32 bits; 24-bit output %d instead of %.0f",ctx,pi,p->kind,p->len,mc_hex(p->d,p->len<16?p->len:16),i,i/nch,i%nch,f,x24,o24[i],want); }
+         if(!okv && !b32++){ snprintf(sg,sizeof sg,"%s24_float_beyond_int32_range_not_saturated",api);   /* reported once per call; the other clauses stay checked */
+            mc_fail(sg,WHERE " sample %d (pos %d ch %d): float %.9g -> 2^23*f = %.1f does not fit 32 bits; 24-bit output %d instead of %.0f",WARGS,i,i/nch,i%nch,f,x24,o24[i],want); }
       } else
-      if(fabs((double)o24[i]-x24)>0.5){ snprintf(sg,sizeof sg,"%s24_not_float_times_2p23_rounded",api);
-         mc_fail(sg,"%s packet %d (kind %d len %d %s..) sample %d (frame pos %d ch %d): float %.9g -> 2^23*f = %.3f but 24-bit output %d",ctx,pi,p->kind,p->len,mc_hex(p->d,p->len<16?p->len:16),i,i/nch,i%nch,f,x24,o24[i]); return 0; }
-      y=(double)sc[i]*32768.0; yc=clamp16(y);
-      if(fabs((double)o16[i]-yc)>0.5){ snprintf(sg,sizeof sg,"%s16_not_softclip_scale_round_saturate_of_float",api);
-         mc_fail(sg,"%s packet %d (kind %d len %d %s..) sample %d (frame pos %d ch %d): float %.9g, public soft clip -> %.9g, x32768 = %.3f, expected %.1f +-0.5 but 16-bit output %d",ctx,pi,p->kind,p->len,mc_hex(p->d,p->len<16?p->len:16),i,i/nch,i%nch,f,(double)sc[i],y,yc,o16[i]); return 0; }
-      if(sc[i]!=of[i]) chg++;
-      if(y>32767.0||y<-32768.0) sat++;
+      if(fabs((double)o24[i]-x24)>0.5){ snprintf(sg,sizeof sg,"%s24%s_not_float_times_2p23_rounded",api,conceal?"_concealment":"");
+         mc_fail(sg,WHERE " sample %d (pos %d ch %d): float %.9g -> 2^23*f = %.3f but 24-bit output %d",WARGS,i,i/nch,i%nch,f,x24,o24[i]); ok=0; goto done; }
       if(x24>8388607.0||x24<-8388608.0) ov++;
    }
+   if(!conceal){
+      float m2[2][16]; int bad[2]={-1,-1},live=0,c,k; float scbad=0;
+      for(c=0;c<t->ncand;c++){ memcpy(m2[c],t->cand[c],sizeof m2[c]); memcpy(sc,of,sizeof(float)*n); opus_pcm_soft_clip(sc,rf,nch,m2[c]); bad[c]=first16(o16,sc,n); if(bad[c]>=0&&c==0) scbad=sc[bad[c]];
+         if(bad[c]<0&&!live++){ for(i=0;i<n;i++){ double y=(double)sc[i]*32768.0; if(sc[i]!=of[i]) chg++; if(y>32767.0||y<-32768.0) sat++; } } }
+      if(!live){ i=bad[0]; snprintf(sg,sizeof sg,"%s16_not_softclip_scale_round_saturate_of_float%s",api,t->ncand>1?"_after_loss_under_either_memory_reading":"");
+         mc_fail(sg,WHERE " sample %d (pos %d ch %d): float %.9g, public soft clip -> %.9g, x32768 = %.3f +-0.5 expected but 16-bit output %d%s",WARGS,i,i/nch,i%nch,(double)of[i],(double)scbad,(double)scbad*32768.0,o16[i],t->ncand>1?" (memory carried across the loss; the cleared-memory reading fails too)":""); ok=0; goto done; }
+      for(c=0,k=0;c<t->ncand;c++) if(bad[c]<0) memcpy(t->cand[k++],m2[c],sizeof m2[c]);
+      t->ncand=k; if(k==2&&!memcmp(t->cand[0],t->cand[1],sizeof(float)*nch)) t->ncand=1;
+   } else {
+      /* concealment: the clipper is not part of the relation.  Each sample must be the plain conversion of the float sample or its
+         soft-clipped value under a live memory reading (nothing is committed). */
+      float m2[16]; int c; unsigned char *okm=calloc(n?n:1,1);
+      for(i=0;i<n;i++) if(fabs((double)o16[i]-clamp16((double)of[i]*32768.0))<=0.5) okm[i]=1;
+      for(c=0;c<t->ncand;c++){ memcpy(m2,t->cand[c],sizeof m2); memcpy(sc,of,sizeof(float)*n); opus_pcm_soft_clip(sc,rf,nch,m2); for(i=0;i<n;i++) if(fabs((double)o16[i]-clamp16((double)sc[i]*32768.0))<=0.5) okm[i]=1; }
+      for(i=0;i<n;i++){ double y=(double)of[i]*32768.0; if(y>32767.0||y<-32768.0) sat++; if(!okm[i]) break; }
+      if(i<n){ snprintf(sg,sizeof sg,"%s16_concealment_neither_plain_nor_softclipped_conversion_of_float",api);
+         mc_fail(sg,WHERE " sample %d (pos %d ch %d): float %.9g (x32768 = %.3f) but 16-bit output %d",WARGS,i,i/nch,i%nch,(double)of[i],(double)of[i]*32768.0,o16[i]); free(okm); ok=0; goto done; }
+      free(okm); t3_loss(t);
+   }
    MC_ADD(c_samples,n); MC_ADD(c_clipchg,chg); MC_ADD(c_sat16,sat); MC_ADD(c_over24,ov);
-   if(nz){ uint64_t h=mc_hash(of,sizeof(float)*n,gf); if(mc_set_add(S_obs,h)){ MC_INC(c_states); MC_INC(c_dn);
-      if(mc_set_add(S_cls,mc_mix(mc_hash(api,strlen(api),1),mc_mix((p->d[0]>>3)*4+nch,(chg>0)*4+(sat>0)*2+(ov>0)))))
-         if(MC_INC(c_nsmp)<4) mc_sample("%s: %s packet %d (kind %d, TOC %02x, len %d) -> %d samples x %d ch, final range %08x; %ld samples changed by soft clip, %ld saturated at 16 bits, %ld beyond 2^23 in 24 bits; e.g. float %.7g -> 24-bit %d, 16-bit %d",api,ctx,pi,p->kind,p->d[0],p->len,rf,nch,gf,chg,sat,ov,(double)of[n/2],o24[n/2],o16[n/2]); } }
-   return 1;
+   if(nz){ uint64_t h=mc_hash(of,sizeof(float)*n,gf+conceal); if(mc_set_add(S_obs,h)){ MC_INC(c_states); MC_INC(c_dn); if(conceal) MC_INC(c_dnconceal);
+      if(mc_set_add(S_cls,mc_mix(mc_hash(api,strlen(api),1+conceal*8+fec*16),mc_mix((p->d[0]>>3)*4+nch,(chg>0)*4+(sat>0)*2+(ov>0)))))
+         if(MC_INC(c_nsmp)<4||(conceal&&MC_INC(c_nsmp2)<2)) mc_sample("%s: " WHERE " -> %d samples x %d ch, final range %08x; %ld samples changed by soft clip, %ld saturated at 16 bits, %ld beyond 2^23 in 24 bits; e.g. float %.7g -> 24-bit %d, 16-bit %d",api,WARGS,rf,nch,gf,chg,sat,ov,(double)of[n/2],o24[n/2],o16[n/2]); } }
+done:
+   free(o16); free(o24); free(of); free(sc); return ok;
 }
 
-static void dec_item(long sid,void *u){
-   pref seq[96]; int ns=stream_seq((int)sid,seq,96),fi,chd,i,err; (void)u;
-   for(fi=0;fi<5;fi++) for(chd=1;chd<=2;chd++){
-      int fsd=FSD[fi],maxfs=fsd/25*3; float mem[2]={0,0}; char ctx[200];
-      OpusDecoder *d16=opus_decoder_create(fsd,chd,&err),*d24=opus_decoder_create(fsd,chd,&err),*df=opus_decoder_create(fsd,chd,&err);
-      opus_int16 *o16=malloc(sizeof(opus_int16)*maxfs*chd); opus_int32 *o24=malloc(sizeof(opus_int32)*maxfs*chd); float *of=malloc(sizeof(float)*maxfs*chd),*sc=malloc(sizeof(float)*maxfs*chd);
-      snprintf(ctx,sizeof ctx,"stream '%s' decoder{Fs %d, %d ch}",C.s[sid].name,fsd,chd);
-      for(i=0;i<ns;i++){ int r16,r24,rf; opus_uint32 g16=0,g24=0,gf=0;
-         mc_case_bytes("decode_triplet",seq[i].d,seq[i].len<64?seq[i].len:64,seq[i].len,fsd,chd);
-         r16=opus_decode(d16,seq[i].d,seq[i].len,o16,maxfs,0); r24=opus_decode24(d24,seq[i].d,seq[i].len,o24,maxfs,0); rf=opus_decode_float(df,seq[i].d,seq[i].len,of,maxfs,0);
-         opus_decoder_ctl(d16,OPUS_GET_FINAL_RANGE(&g16)); opus_decoder_ctl(d24,OPUS_GET_FINAL_RANGE(&g24)); opus_decoder_ctl(df,OPUS_GET_FINAL_RANGE(&gf));
-         MC_ADD(c_trans,3);
-         if(!cmp_triple("decode",ctx,i,&seq[i],r16,r24,rf,g16,g24,gf,o16,o24,of,sc,chd,mem)) break;
-      }
-      free(o16); free(o24); free(of); free(sc); opus_decoder_destroy(d16); opus_decoder_destroy(d24); opus_decoder_destroy(df);
+/* loss events (deviation-bounded: <= 2 per chain).  shape 0: one packet lost, PLC for its whole duration; 1: PLC in 10 ms pieces
+ * (2.5 ms pieces for shorter packets); 2,3,4: 1,2,3 consecutive packets lost and rebuilt from the NEXT packet with decode_fec=1 and
+ * frame_size = the lost duration (1x, 2x, 3x), after which that packet is decoded normally. */
+typedef struct { int pos,shape; } lossev;
+static const char *const SHAPEN[5]={"PLC whole packet","PLC in 10 ms pieces","FEC 1x from next packet","FEC 2x from next packet","FEC 3x from next packet"};
+static int ev_span(const lossev *e){ return e->shape<2?1:e->shape-1; }
+static int g_lossmode=1, g_cfgmask=0x3ff;
+/* runs one chain on fresh twins; returns 0 on a recorded failure */
+static int run_chain(T3 *t,const pref *seq,int ns,const lossev *ev,int nev){
+   int i=0,e; char what[160];
+   while(i<ns){
+      for(e=0;e<nev;e++) if(ev[e].pos==i) break;
+      if(e<nev){ int k=ev_span(&ev[e]),j,dur=0,fs=t->fsd;
+         for(j=0;j<k;j++){ int d=opus_packet_get_nb_samples(seq[i+j].d,seq[i+j].len,fs); if(d<=0) return 1; dur+=d; }
+         if(ev[e].shape==0){ snprintf(what,sizeof what,"lost packet %d: %s",i,SHAPEN[0]); if(!t3_step(t,what,i,&seq[i],NULL,0,dur,0,1)) return 0; }
+         else if(ev[e].shape==1){ int piece=fs/100,done=0; if(dur%piece) piece=fs/400;
+            while(done<dur){ snprintf(what,sizeof what,"lost packet %d: %s (samples %d..%d of %d)",i,SHAPEN[1],done,done+piece,dur); if(!t3_step(t,what,i,&seq[i],NULL,0,piece,0,1)) return 0; done+=piece; } }
+         else { if(i+k>=ns) return 1; snprintf(what,sizeof what,"lost packets %d..%d: %s",i,i+k-1,SHAPEN[ev[e].shape]); if(!t3_step(t,what,i+k,&seq[i+k],seq[i+k].d,seq[i+k].len,dur,1,1)) return 0; }
+         i+=k; continue; }
+      { int fs=t->fsd/25*3; snprintf(what,sizeof what,"received"); if(!t3_step(t,what,i,&seq[i],seq[i].d,seq[i].len,fs,0,0)) return 0; }
+      i++;
    }
+   return 1;
+}
+/* enumerates the chains of one (stream, decoder configuration): no loss; every single event; (lossmode 2) every pair of events
+ * with one or two received packets between them.  make() creates fresh twins. */
+typedef int (*mk_fn)(T3 *t,void *u);
+static void all_chains(mk_fn make,void *u,const pref *seq,int ns,int npos){
+   T3 t; lossev ev[2]; int p,sh,p2,sh2;
+   if(!make(&t,u)) return; MC_INC(c_chains); run_chain(&t,seq,ns,NULL,0); t3_destroy(&t);
+   if(!g_lossmode) return;
+   for(p=0;p<npos;p++) for(sh=0;sh<5;sh++){ int ok;
+      ev[0].pos=p; ev[0].shape=sh; if(p+ev_span(&ev[0])>(sh<2?ns:ns-1)) continue;
+      if(!make(&t,u)) return; MC_INC(c_chains); ok=run_chain(&t,seq,ns,ev,1); t3_destroy(&t);
+      if(!ok||g_lossmode<2) continue;
+      for(p2=p+ev_span(&ev[0])+1;p2<=p+ev_span(&ev[0])+2&&p2<npos;p2++) for(sh2=0;sh2<5;sh2++){
+         ev[1].pos=p2; ev[1].shape=sh2; if(p2+ev_span(&ev[1])>(sh2<2?ns:ns-1)) continue;
+         if(!make(&t,u)) return; MC_INC(c_chains); run_chain(&t,seq,ns,ev,2); t3_destroy(&t); }
+   }
+}
+
+typedef struct { int sid,fsd,chd; } deccfg;
+static int mk_dec(T3 *t,void *u){ deccfg *c=u; int k,err=0; memset(t,0,sizeof *t); t->ms=0; t->nch=c->chd; t->fsd=c->fsd; t->ncand=1; t->api="decode";
+   for(k=0;k<3;k++){ t->d[k]=opus_decoder_create(c->fsd,c->chd,&err); if(!t->d[k]){ mc_fail("decoder_create_failed","Fs %d ch %d err %d",c->fsd,c->chd,err); t3_destroy(t); return 0; } }
+   snprintf(t->ctx,sizeof t->ctx,"stream '%s' decoder{Fs %d, %d ch}",C.s[c->sid].name,c->fsd,c->chd); return 1; }
+static void dec_item(long sid,void *u){
+   pref seq[96]; int ns=stream_seq((int)sid,seq,96),fi,chd,npos=0; (void)u;
+   while(npos<ns&&seq[npos].kind==0) npos++;            /* loss positions: the encoder's own packet sequence; the derived packets follow */
+   for(fi=0;fi<5;fi++) for(chd=1;chd<=2;chd++) if(g_cfgmask>>(fi*2+chd-1)&1){ deccfg c; c.sid=(int)sid; c.fsd=FSD[fi]; c.chd=chd; all_chains(mk_dec,&c,seq,ns,npos); }
 }
 
 /* ------------------------------------------------------------------ multistream packet streams (frozen multistream encoder) */
@@ -214,29 +286,22 @@ static void ms_build(int level){
 
 /* ------------------------------------------------------------------ mode msdec */
 static int g_msfs_mask=0x15;
+typedef struct { msstream *m; int fsd,v; } mscfg;
+static int mk_ms(T3 *t,void *u){ mscfg *c=u; msstream *m=c->m; int i,k=0,err=0,nsc=m->nsc,nch; unsigned char map[16]; char ms[64];
+   memset(t,0,sizeof *t);
+   if(c->v==0){ nch=nsc; for(i=0;i<nch;i++) map[i]=i; }
+   else if(c->v==1){ nch=nsc; for(i=0;i<nch;i++) map[i]=nsc-1-i; }
+   else { nch=nsc+2; map[0]=0; map[1]=0; map[2]=255; for(i=3;i<nch;i++) map[i]=nsc-1-(i-3); }
+   for(i=0;i<nch;i++) k+=snprintf(ms+k,sizeof ms-k,"%s%d",i?",":"",map[i]);
+   t->ms=1; t->nch=nch; t->fsd=c->fsd; t->ncand=1; t->api="ms_decode";
+   for(i=0;i<3;i++){ t->d[i]=opus_multistream_decoder_create(c->fsd,nch,m->S,m->Cp,map,&err); if(!t->d[i]){ mc_fail("ms_decoder_create_failed","%s mapping [%s] err %d",m->name,ms,err); t3_destroy(t); return 0; } }
+   snprintf(t->ctx,sizeof t->ctx,"'%s' ms_decoder{Fs %d, mapping [%s]}",m->name,c->fsd,ms); return 1; }
 static void msdec_item(long it,void *u){
-   msstream *m=&MS[it]; int fi,v,i,err,nsc=m->nsc; (void)u;
-   for(fi=0;fi<5;fi++) if(g_msfs_mask>>fi&1) for(v=0;v<3;v++){
-      int fsd=FSD[fi],maxfs=fsd/25*3,nch; unsigned char map[16]; float mem[16]; char ctx[260],ms[64]; int k=0;
-      OpusMSDecoder *d16,*d24,*df; opus_int16 *o16; opus_int32 *o24; float *of,*sc;
-      if(v==0){ nch=nsc; for(i=0;i<nch;i++) map[i]=i; }
-      else if(v==1){ nch=nsc; for(i=0;i<nch;i++) map[i]=nsc-1-i; }
-      else { nch=nsc+2; map[0]=0; map[1]=0; map[2]=255; for(i=3;i<nch;i++) map[i]=nsc-1-(i-3); }
-      for(i=0;i<nch;i++) k+=snprintf(ms+k,sizeof ms-k,"%s%d",i?",":"",map[i]);
-      memset(mem,0,sizeof mem);
-      d16=opus_multistream_decoder_create(fsd,nch,m->S,m->Cp,map,&err); d24=opus_multistream_decoder_create(fsd,nch,m->S,m->Cp,map,&err); df=opus_multistream_decoder_create(fsd,nch,m->S,m->Cp,map,&err);
-      if(!d16||!d24||!df){ mc_fail("ms_decoder_create_failed","%s mapping [%s] err %d",m->name,ms,err); return; }
-      o16=malloc(sizeof(opus_int16)*maxfs*nch); o24=malloc(sizeof(opus_int32)*maxfs*nch); of=malloc(sizeof(float)*maxfs*nch); sc=malloc(sizeof(float)*maxfs*nch);
-      snprintf(ctx,sizeof ctx,"'%s' ms_decoder{Fs %d, mapping [%s]}",m->name,fsd,ms);
-      for(i=0;i<m->np;i++){ int r16,r24,rf; opus_uint32 g16=0,g24=0,gf=0; pref p; p.d=m->pk[i]; p.len=m->len[i]; p.kind=0; p.idx=i;
-         mc_case_bytes("ms_decode_triplet",p.d,p.len<64?p.len:64,p.len,fsd,v);
-         r16=opus_multistream_decode(d16,p.d,p.len,o16,maxfs,0); r24=opus_multistream_decode24(d24,p.d,p.len,o24,maxfs,0); rf=opus_multistream_decode_float(df,p.d,p.len,of,maxfs,0);
-         opus_multistream_decoder_ctl(d16,OPUS_GET_FINAL_RANGE(&g16)); opus_multistream_decoder_ctl(d24,OPUS_GET_FINAL_RANGE(&g24)); opus_multistream_decoder_ctl(df,OPUS_GET_FINAL_RANGE(&gf));
-         MC_ADD(c_trans,3);
-         if(!cmp_triple("ms_decode",ctx,i,&p,r16,r24,rf,g16,g24,gf,o16,o24,of,sc,nch,mem)) break;
-      }
-      free(o16); free(o24); free(of); free(sc); opus_multistream_decoder_destroy(d16); opus_multistream_decoder_destroy(d24); opus_multistream_decoder_destroy(df);
-   }
+   msstream *m=&MS[it]; int fi,v,i; pref seq[24]; (void)u;
+   for(i=0;i<m->np;i++){ seq[i].d=m->pk[i]; seq[i].len=m->len[i]; seq[i].kind=0; seq[i].idx=i; }
+   for(fi=0;fi<5;fi++) if(g_msfs_mask>>fi&1) for(v=0;v<3;v++){ mscfg c; int keep=g_lossmode; c.m=m; c.fsd=FSD[fi]; c.v=v;
+      if(v==1&&g_lossmode) g_lossmode=0;              /* loss events on the identity and the duplicate/muted mapping; the reversed one stays loss-free */
+      all_chains(mk_ms,&c,seq,m->np,m->np); g_lossmode=keep; }
 }
 
 /* ------------------------------------------------------------------ mode proj */
@@ -339,7 +404,8 @@ int main(int argc,char **argv){
    c_errs=mc_counter("packets_all_return_same_error"); c_nsmp=mc_counter("sample_candidates");
    S_obs=mc_set_new(22); S_cls=mc_set_new(14);
    if(!strcmp(mode,"dec")||!strcmp(mode,"msdec")){
-      c_samples=mc_counter("samples_compared"); c_clipchg=mc_counter("samples_changed_by_soft_clip"); c_sat16=mc_counter("samples_saturated_16bit"); c_over24=mc_counter("samples_beyond_2p23_in_24bit"); c_nonfinite=mc_counter("samples_nonfinite_skipped"); c_beyond32=mc_counter("samples_float_beyond_int32_in_24bit");
+      c_samples=mc_counter("samples_compared"); c_clipchg=mc_counter("samples_changed_by_soft_clip"); c_sat16=mc_counter("samples_saturated_16bit"); c_over24=mc_counter("samples_beyond_2p23_in_24bit"); c_nonfinite=mc_counter("samples_nonfinite_skipped"); c_beyond32=mc_counter("samples_float_beyond_int32_in_24bit"); c_conceal=mc_counter("concealment_calls_compared"); c_dnconceal=mc_counter("distinct_nontrivial_concealment_outputs"); c_fork=mc_counter("losses_with_nonzero_softclip_memory"); c_chains=mc_counter("chains"); c_nsmp2=mc_counter("sample_candidates_concealment");
+      g_lossmode=(int)mc_arg("--loss",1); g_cfgmask=(int)mc_arg("--cfgs",0x3ff);
    }
    if(!strcmp(mode,"dec")){
       corpus_build(&C,level); corpus_add_reframed(&C); build_loud(level);
